@@ -254,7 +254,7 @@ class C02(Property):
             return {'what': 'setup/run raised %s' % impl['error'], 'msg': impl.get('msg')}
         tol = self._tol(case)
         for t in impl['tests']:
-            ttol = max(tol, 1e-7) if t['name'] in ('solve_linear', 'jacvec', 'jacvec_vs_totals') else RTOL
+            ttol = max(tol, 1e-7) if t['name'] in ('solve_linear', 'solve_linear_multiple', 'jacvec', 'jacvec_vs_totals') else RTOL
             if not abs(t['lhs'] - t['rhs']) <= ttol * max(1.0, t['scale']):
                 return {'what': 'dot-product test fails: <w, Op v> != <Op^T w, v>',
                         'operator': t['name'].split(':')[0], 'test': t}
